@@ -977,6 +977,7 @@ func checkROMHeader(ctx *Ctx, total, titleOff int) {
 		contents := ip.Load(&absint.State{Heap: absint.NewHeap(nil)}, &absint.Ptr{Obj: ip.SymObj("contents", types.NewPointer(types.NewSlice(types.Typ[types.Byte])))}, types.NewSlice(types.Typ[types.Byte]))
 		ip.Call(fn, []absint.Val{&absint.Str{Key: "name"}, contents}, nil, &absint.State{Heap: absint.NewHeap(nil)})
 		ok := false
+		tooStrict := ""
 		if hdrOff != nil {
 			if c, isC := hdrOff.IsConst(); isC {
 				for k, v := range guardsAtRead {
@@ -985,10 +986,16 @@ func checkROMHeader(ctx *Ctx, total, titleOff int) {
 						kk := k[strings.Index(k, "<")+1 : len(k)-1]
 						if lim, err := strconv.ParseUint(kk, 16, 64); err == nil && c+uint64(total) <= lim {
 							ok = true
+							if lim > c+uint64(total) {
+								tooStrict = fmt.Sprintf("NewROM refuses images shorter than $%X although the header ends at $%X: an image that holds a complete header is rejected", lim, c+uint64(total))
+							}
 						}
 					}
 				}
 			}
+		}
+		if ok && tooStrict != "" {
+			R.Fail("rom", "NewROM:refuses-valid", pos, tooStrict)
 		}
 		if ok {
 			R.Pass("rom", "NewROM:length-guard", pos, fmt.Sprintf("HeaderOffset %s + %d <= guaranteed length", hdrOff, total))
